@@ -180,14 +180,15 @@ def oracle(kind, progs, sc, world, sent_objs, complete):
     for m in order:
         if id(m) in objs:
             return ('not-a-copy', 'the received message %r is the very object that was sent' % (m,))
-    before = [key(m) for m in order]
+    before = [(key(m), m.time) for m in order]
     for _, m, _ in sent_objs:
+        m.time = 4242
         if hasattr(m, 'velocity'):
             m.velocity = (m.velocity + 1) % 128
         elif hasattr(m, 'data'):
             m.data = (9, 9)
-    if [key(m) for m in order] != before:
-        return ('not-a-copy', 'changing the sent objects changed the received messages')
+    if [(key(m), m.time) for m in order] != before:
+        return ('not-a-copy', 'changing the sent objects afterwards changed the received messages')
     return None
 
 
@@ -473,10 +474,13 @@ def job(j):
 
 def programs(rng, quick):
     uid = [0]
+    realtime_left = [12, 13, 14, 15, 16, 17]          # clock, start, continue, stop, active_sensing, reset: each at most once (they carry no data)
 
     def msg():
         uid[0] += 1
         r = rng.random()
+        if r < 0.12 and realtime_left:
+            return [realtime_left.pop(rng.randrange(len(realtime_left)))]
         if r < 0.7:
             return [1, rng.randrange(16), uid[0] % 128, 1 + uid[0] // 128]            # note_on, unique (note, velocity)
         if r < 0.8:
@@ -485,7 +489,7 @@ def programs(rng, quick):
             return [7, 2, uid[0] % 128, uid[0] // 128]                                 # sysex
         return [3, 0, uid[0] % 128, 1 + uid[0] // 128]
     small = [
-        [[('send', msg())], [('recv', 0)], [('recv', 0)]],
+        [[('send', [12])], [('recv', 0)], [('recv', 0)]],
         [[('send', msg()), ('send', msg())], [('send', msg())], [('iterp',)]],
         [[('send', msg())], [('send', msg())], [('recv', 1)], [('recv', 0)]],
         [[('send', msg()), ('recv', 0)], [('send', msg()), ('recv', 1)]],
